@@ -30,8 +30,8 @@ func VfWorldWithObject(maxLen int) (*Posix, []byte) {
 // VfLockWorld builds a lock-enabled bucket "bkt" (versioning directory configured or not) holding object "k" = "D" under
 // the given protection (0 legal hold, 1 COMPLIANCE until far in the future, 2 GOVERNANCE likewise), a second object
 // "other" = "X" and a multipart upload for "k" with one stored part. It returns the backend, the version id of "k" ("" in
-// an unversioned bucket) and the upload id.
-func VfLockWorld(versioning bool, protection int) (p *Posix, versionID, uploadID string) {
+// an unversioned bucket) and the upload id. history adds later versions on top (see below).
+func VfLockWorld(versioning bool, protection, history int) (p *Posix, versionID, uploadID string) {
 	vfWorld()
 	p = vfNewPosix(vfConfig{versioning: versioning})
 	ctx := vfCtxOf("root")
@@ -59,6 +59,16 @@ func VfLockWorld(versioning bool, protection int) (p *Posix, versionID, uploadID
 		zzvf.Assert(p.PutObjectRetention(ctx, "bkt", "k", "", false, b) == nil, "setup-retention")
 	}
 	key := "k"
+	// later history on top of the protected version (versioned buckets only): 1 = a newer version, 2 = a newer version and
+	// then a delete marker - the protected version is then a noncurrent one
+	if versioning && history >= 1 {
+		_, err := p.PutObject(ctx, s3response.PutObjectInput{Bucket: vfStr("bkt"), Key: &key, Body: bytes.NewReader([]byte("2")), ContentLength: &one})
+		zzvf.Assert(err == nil, "setup-newer-version")
+		if history == 2 {
+			_, err := p.DeleteObject(ctx, &s3.DeleteObjectInput{Bucket: vfStr("bkt"), Key: &key})
+			zzvf.Assert(err == nil, "setup-delete-marker")
+		}
+	}
 	up, err := p.CreateMultipartUpload(ctx, s3response.CreateMultipartUploadInput{Bucket: vfStr("bkt"), Key: &key})
 	zzvf.Assert(err == nil, "setup-upload")
 	vfStorePart("bkt", "k", up.UploadId, 1, []byte("P"), 0, "e1")
